@@ -204,6 +204,28 @@ class Sym(object):
         isd = [And(c >= 48, c <= 57) if not isinstance(c, int) else (48 <= c <= 57) for c in a.c]
         return mkbool(Or(*[And(i + k <= a.n, *isd[i:i + k]) for i in range(a.m - k + 1)]))
 
+    def symbolic_fs(self, entries):
+        """entries: {relative path: text (file) | None (directory)}; returns (root path, {relative path: exists?})"""
+        from . import stubs
+        root = "/psx-symfs"
+        bits = {}
+        cons = []
+        for i, rel in enumerate(sorted(entries)):
+            t = z3.Bool("in.fs%d" % i)
+            bits[rel] = t
+            self.vars["fs%d" % i] = ("bool", t)
+        for rel in sorted(entries):
+            parent = os.path.dirname(rel)
+            if rel and parent in bits and parent != rel:
+                cons.append(z3.Implies(bits[rel], bits[parent]))
+            elif rel and parent == "" and "" in bits:
+                cons.append(z3.Implies(bits[rel], bits[""]))
+        self.I.add_side(cons)
+        fs = stubs.SymFS(self.I, root, entries, bits)
+        self.I.options["fs"] = fs
+        self.job.bounds["symbolic_fs"] = {"paths": len(entries)}
+        return root, dict((rel, SymBool(bits[rel])) for rel in entries)
+
     def scratch_dir(self):
         """a fresh real directory (outside /repo and /verif), removed when the job ends"""
         import tempfile
